@@ -36,7 +36,7 @@ def comp(rng, depth, names):
     def add(s, v, opt=None, name=None):
         fields.append({"name": name or fresh(), "s": s, "opt": opt or {"k": "none"}})
         vals.append(v)
-    pattern = rng.choice(["plain", "sized_blob", "skip", "sized_comp", "sized_arr", "plain"])
+    pattern = rng.choice(["plain", "sized_blob", "skip", "sized_comp", "sized_arr", "plain", "double_size", "bitmap_like"])
     for _ in range(rng.randint(0, 2)):
         add(*leaf(rng))
     if pattern == "sized_blob":
@@ -51,6 +51,31 @@ def comp(rng, depth, names):
         s, v = blob(rng)
         while len(v) < a:
             v.append(rng.randrange(256))
+        add(s, v, name=t)
+    elif pattern == "double_size":
+        # two size-giving fields for the same target: the one read last decides (as bitmapLength and then
+        # cbCompMainBodySize do for bitmapDataStream in TS_BITMAP_DATA)
+        t = fresh()
+        s, v = blob(rng)
+        a = rng.choice([0, 0, 2])
+        while len(v) < a:
+            v.append(rng.randrange(256))
+        first = rng.choice([0, 1, len(v), len(v) + 1, len(v) + 8, max(0, len(v) - 1), 300])
+        add({"t": "u16", "e": rng.choice(["le", "be"])}, first, {"k": "size", "target": t, "add": 0})
+        if rng.random() < 0.5:
+            add(*leaf(rng))
+        add({"t": "u16", "e": rng.choice(["le", "be"])} if rng.random() < 0.7 else {"t": "u8"}, -1, {"k": "size", "target": t, "add": a})
+        add(s, v, name=t)
+    elif pattern == "bitmap_like":
+        # flags decide whether a second, size-giving header field is present; when it is, it overrides the first size
+        t, hname = fresh(), fresh()
+        s, v = blob(rng)
+        mask = rng.choice([1, 4, 0x40])
+        present = rng.random() < 0.6
+        flag = rng.choice([x for x in range(256) if bool(x & mask) == present])
+        add({"t": "u8"}, flag, {"k": "skip", "target": hname, "mask": mask})
+        add({"t": "u16", "e": "le"}, (len(v) + 2) if present else -1, {"k": "size", "target": t, "add": 0})
+        add({"t": "u16", "e": "le"}, -1 if present else 0, {"k": "size", "target": t, "add": 0}, name=hname)
         add(s, v, name=t)
     elif pattern == "skip":
         t = fresh()
